@@ -1,10 +1,225 @@
 import BFL.Driver.Proto
-/- Driver entries of this group (stub: no operation handled yet). -/
+import BFL.Model.Shape
+/-
+Driver entry of the container model (C11), executed over `Float` (the only arithmetic is the
+`1.0 / components` of the constructors, which IEEE division renders bit-for-bit).
+
+  shp <op> ; <op> ; ...      same grammar as harness/h_shape.cpp (see there)
+
+Output mirrors the harness token for token; an unspecified entry is printed as `_`.  A sequence on
+which the model predicts an Eigen assertion prints `crash:assert`.
+-/
 namespace BFL.DriverShape
-open BFL BFL.Proto
+open BFL BFL.Proto BFL.Shape
+
+instance : NatCast Float := ⟨Float.ofNat⟩
+instance : Zero Float := ⟨0.0⟩
+instance : One Float := ⟨1.0⟩
+
+def valStr (x : Float) : String :=
+  if x.toBits == 0 then "0"
+  else if x.abs < 2147483648.0 && x.floor == x && x != 0.0 then
+    (if x < 0.0 then "-" else "") ++ toString x.abs.toUInt64.toNat
+  else floatStr x
+
+def cellStr : Option Float → String
+  | some v => valStr v
+  | none => "_"
+
+def stampVal (stamp storage comp idx : Nat) : Float :=
+  Float.ofNat (1 + idx + 1024 * (comp + 32 * (storage + 4 * stamp)))
+
+def kindOfNat : Nat → Option Kind
+  | 0 => some Kind.gm
+  | 1 => some Kind.gaussian
+  | 2 => some Kind.ps
+  | _ => none
+
+def kindNat : Kind → Nat
+  | Kind.gm => 0
+  | Kind.gaussian => 1
+  | Kind.ps => 2
+
+/-- position `(col, row)` of an element inside a matrix with `rows` rows -/
+def pos (rows col row : Nat) : List String :=
+  if rows = 0 then ["z", "z"] else [toString col, toString row]
+
+/-- geometry of a block starting at `(0, col)` with `r × c` cells -/
+def geom (rows col r c : Nat) : List String :=
+  (if r * c = 0 then ["z", "z"] else pos rows col 0) ++ [toString r, toString c]
+
+def twice (l : List String) : List String := l ++ l
+
+def entries (s : Sto Float) : List String :=
+  (List.range s.cols).flatMap fun j => (List.range s.rows).map fun i => cellStr (s.get i j)
+
+def dumpObj (slot : Nat) (x : Container Float) : List String :=
+  let b (v : Bool) := if v then "1" else "0"
+  let n (v : Nat) := toString v
+  let mr := x.mean.rows; let mc := x.mean.cols
+  let cr := x.cov.rows; let cc := x.cov.cols
+  let wr := x.weight.rows
+  let isPs := x.kind == Kind.ps
+  let sr := if isPs then x.state.rows else 0
+  let sc := if isPs then x.state.cols else 0
+  let dc := x.dimCovariance
+  let acc := (List.range (min x.components 16)).flatMap fun i =>
+    let (mcol, mw) := meanBlock x i
+    let (ccol, cw) := covBlock x i
+    let (scol, sw) := stateBlock x i
+    (if i < mc then twice (geom mr mcol mr mw) else ["oob"]) ++
+    (if i < mc ∧ mr > 0 then twice (pos mr mcol (mr - 1)) else ["-"]) ++
+    (if ccol + cw ≤ cc then twice (geom cr ccol cr cw) else ["oob"]) ++
+    (if cr > 0 ∧ dc > 0 ∧ ccol + cw ≤ cc then
+        twice (pos cr (ccol + (dc - 1)) 0 ++ pos cr ccol (cr - 1)) else ["-"]) ++
+    (if i < wr then twice [n (weightIndex x i)] else ["oob"]) ++
+    (if isPs then
+      (if i < sc then twice (geom sr scol sr sw) else ["oob"]) ++
+      (if i < sc ∧ sr > 0 then twice (pos sr scol (sr - 1)) else ["-"])
+     else [])
+  let ga := if x.kind == Kind.gaussian then
+      ["G"] ++
+      (if mc ≥ 1 then twice (geom mr 0 mr 1) else ["oob"]) ++
+      (if mc ≥ 1 ∧ mr > 0 then twice (pos mr 0 (mr - 1)) else ["-"]) ++
+      twice (geom cr 0 cr cc) ++
+      (if cr > 0 ∧ cc > 0 then twice (pos cr (cc - 1) 0 ++ pos cr 0 (cr - 1)) else ["-"]) ++
+      (if wr ≥ 1 then ["0", "0"] else ["oob"])
+    else []
+  ["O", n slot, n (kindNat x.kind), n x.components, b x.useQuaternion, n x.dimCircularComponent,
+   n x.dim, n x.dimLinear, n x.dimCircular, n x.dimNoise, n x.dimCovariance,
+   "M", n mr, n mc, "C", n cr, n cc, "W", n wr, "S", n sr, n sc, "A"] ++ acc ++ ga ++
+  ["E"] ++ entries x.mean ++ ["/"] ++ entries x.cov ++ ["/"] ++
+  ((List.range wr).map fun i => cellStr (x.weight.get i 0)) ++ ["/"] ++
+  (if isPs then entries x.state else [])
+
+/-- One parsed operation: the model operation, the slot it writes to, an applicability test the
+    harness also makes (Gaussian-only accessor variants), and how the return value is shown. -/
+structure POp where
+  op : Op Float
+  dst : Nat
+  /-- extra applicability condition on the pool -/
+  ok : Pool Float → Bool := fun _ => true
+  ret : Pool Float → String := fun _ => "-"
+
+def gaussianOnly (s i : Nat) (mode : Nat) (p : Pool Float) : Bool :=
+  if mode = 2 then
+    match p s with
+    | some x => x.kind == Kind.gaussian && i == 0
+    | none => false
+  else true
+
+def parseOp : R POp := do
+  let o ← tok
+  match o with
+  | "D" => do
+    let dst ← nat; let k ← nat
+    match kindOfNat k with
+    | some kind => pure { op := Op.ctorDefault dst kind, dst }
+    | none => failure
+  | "C2" => do
+    let dst ← nat; let k ← nat; let comps ← nat; let d ← nat
+    match kindOfNat k with
+    | some kind => pure { op := Op.ctorDim dst kind comps d, dst }
+    | none => failure
+  | "C4" => do
+    let dst ← nat; let k ← nat; let comps ← nat; let l ← nat; let c ← nat; let q ← bool
+    match kindOfNat k with
+    | some kind => pure { op := Op.ctorLayout dst kind comps l c q, dst }
+    | none => failure
+  | "CP" => do
+    let dst ← nat; let src ← nat; let _mode ← nat
+    pure { op := Op.copy dst src, dst }
+  | "SL" => do
+    let dst ← nat; let src ← nat
+    pure { op := Op.slice dst src, dst }
+  | "RS" => do
+    let s ← nat; let k ← nat; let l ← nat; let c ← nat
+    pure { op := Op.resize s k l c, dst := s }
+  | "R2" => do
+    let s ← nat; let k ← nat; let l ← nat
+    pure { op := Op.resize s k l 0, dst := s }
+  | "GR" => do
+    let s ← nat; let l ← nat; let c ← nat
+    pure { op := Op.gaussianResize s l c, dst := s }
+  | "G1" => do
+    let s ← nat; let l ← nat
+    pure { op := Op.gaussianResize s l 0, dst := s }
+  | "AU" => do
+    let s ← nat; let qr ← nat; let qc ← nat
+    let vals ← listOf (qr * qc) flt
+    let arr := vals.toArray
+    let q : Nat → Nat → Float := fun i j => arr.getD (j * qr + i) 0.0
+    pure { op := Op.augment s qr qc q, dst := s,
+           ret := fun p => match p s with
+             | some x => match augment x qr qc q with
+               | some (_, true) => "t"
+               | some (_, false) => "f"
+               | none => "-"
+             | none => "-" }
+  | "PE" => do
+    let dst ← nat; let src ← nat
+    pure { op := Op.concatAssign dst src, dst }
+  | "PL" => do
+    let dst ← nat; let a ← nat; let b ← nat
+    pure { op := Op.concatPlus dst a b, dst }
+  | "WM" => do
+    let s ← nat; let mode ← nat; let i ← nat; let j ← nat; let v ← flt
+    pure { op := Op.writeMean s i j v, dst := s, ok := gaussianOnly s i mode }
+  | "WC" => do
+    let s ← nat; let mode ← nat; let i ← nat; let j ← nat; let k ← nat; let v ← flt
+    pure { op := Op.writeCov s i j k v, dst := s, ok := gaussianOnly s i mode }
+  | "WW" => do
+    let s ← nat; let mode ← nat; let i ← nat; let v ← flt
+    pure { op := Op.writeWeight s i v, dst := s, ok := gaussianOnly s i mode }
+  | "WS" => do
+    let s ← nat; let _mode ← nat; let i ← nat; let j ← nat; let v ← flt
+    pure { op := Op.writeState s i j v, dst := s }
+  | "FI" => do
+    let s ← nat; let stamp ← nat
+    pure { op := Op.fill s (fun storage comp idx => stampVal stamp storage comp idx), dst := s }
+  | _ => failure
+
+partial def parseOps (acc : Array POp) : R (Array POp) := do
+  match (← get) with
+  | [] => pure acc
+  | _ =>
+    let o ← parseOp
+    let acc := acc.push o
+    match (← get) with
+    | [] => pure acc
+    | ";" :: rest => set rest; parseOps acc
+    | _ => failure
+
+def nSlot : Nat := 4
+
+def shp : R String := do
+  let ops ← parseOps #[]
+  let mut pool : Pool Float := emptyPool
+  let mut out : Array String := #["ok"]
+  for o in ops do
+    if o.dst ≥ nSlot then failure
+    if !o.ok pool then
+      out := out.push "skip" |>.push ";"
+    else
+      let r := o.ret pool
+      match step pool o.op with
+      | Outcome.assert => return "crash:assert"
+      | Outcome.skip => out := out.push "skip" |>.push ";"
+      | Outcome.ok p' =>
+        pool := p'
+        match pool o.dst with
+        | some x => out := (out.push r) ++ (dumpObj o.dst x).toArray |>.push ";"
+        | none => out := out.push "skip" |>.push ";"
+  out := out.push "END"
+  for s in [0:nSlot] do
+    match pool s with
+    | some x => out := out ++ (dumpObj s x).toArray
+    | none => pure ()
+  pure (join out.toList)
 
 def handle (op : String) (args : List String) : Option String :=
   match op with
+  | "shp" => some ((run shp args).getD "bad-args")
   | _ => none
 
 end BFL.DriverShape
